@@ -218,3 +218,101 @@ Definition route_produces_of (d : bytes) (declared : list bytes) : list bytes :=
   | [] => ps
   | _ => if contains_ci ps d then ps else ps ++ [d]
   end.
+
+(* ---- security requirements with several alternatives and several schemes per alternative
+   (middleware/router.go RouteAuthenticators.Authenticate, RouteAuthenticator.Authenticate, Context.Authorize).
+   One basic scheme (realm, attempt, errcode as above) and any number of api-key schemes; what the request
+   presents to each api-key scheme is written into the requirement itself. An alternative is the list of
+   its schemes in the order the route consults them; the empty alternative is the anonymous one.
+   The basic authenticator writes its marker into the request whenever it is consulted and does not accept;
+   nothing ever removes the marker: it is still there when a later alternative admits the request, and when
+   the answer is finally given. ---- *)
+Inductive key_attempt :=
+| KeyAbsent               (* no token: the authenticator does not apply *)
+| KeyBad (code : nat)     (* a token the authentication function refuses with an error of this code *)
+| KeyGood.                (* a token the authentication function accepts *)
+Inductive sec_scheme := SBasic | SKey (a : key_attempt).
+Record sec_cfg := mksec {
+  sec_realm : bytes;                      (* configured realm of the basic scheme *)
+  sec_attempt : basic_attempt;            (* what the request presents to the basic scheme *)
+  sec_errcode : nat;                      (* code of the error the basic authentication function returns *)
+  sec_alts : list (list sec_scheme)       (* the alternatives, in the order declared; no alternative = no security *)
+}.
+(* the answer of one authenticator: (applies, principal, error) *)
+Inductive sec_res := SNotApplies | SErr (code : nat) | SOk.
+Definition scheme_res (s : sec_cfg) (x : sec_scheme) : sec_res :=
+  match x with
+  | SBasic => match sec_attempt s with
+              | GoodCreds => SOk
+              | BadCreds => SErr (sec_errcode s)
+              | NoCreds | MalformedCreds | ForeignScheme => SNotApplies
+              end
+  | SKey KeyAbsent => SNotApplies
+  | SKey (KeyBad c) => SErr c
+  | SKey KeyGood => SOk
+  end.
+(* the marker after an authenticator ran: the basic one overwrites it when it does not accept *)
+Definition marker_after_scheme (s : sec_cfg) (x : sec_scheme) (m : bytes) : bytes :=
+  match x with
+  | SBasic => match basic_marker (sec_realm s) (sec_attempt s) with [] => m | b => b end
+  | SKey _ => m
+  end.
+(* RouteAuthenticator.Authenticate: the schemes in order, stopping at the first that does not apply or errs *)
+Fixpoint run_alt (s : sec_cfg) (alt : list sec_scheme) (m : bytes) : sec_res * bytes :=
+  match alt with
+  | [] => (SOk, m)
+  | x :: r =>
+    let m' := marker_after_scheme s x m in
+    match scheme_res s x with
+    | SOk => run_alt s r m'
+    | res => (res, m')
+    end
+  end.
+(* RouteAuthenticators.Authenticate followed by the decision of Context.Authorize:
+   (admitted, error to answer with when not admitted, marker left on the request) *)
+Fixpoint run_alts (s : sec_cfg) (alts : list (list sec_scheme)) (last_err : option nat) (anon : bool) (m : bytes)
+  : bool * nat * bytes :=
+  match alts with
+  | [] => match last_err with
+          | Some c => (false, c, m)
+          | None => if anon then (true, 0, m) else (false, 401, m)      (* Unauthenticated: invalid credentials *)
+          end
+  | [] :: r => run_alts s r last_err true m
+  | alt :: r =>
+    match run_alt s alt m with
+    | (SOk, m') => (true, 0, m')
+    | (SErr c, m') => run_alts s r (Some c) anon m'
+    | (SNotApplies, m') => run_alts s r last_err anon m'
+    end
+  end.
+(* the route handler behind newSecureAPI, any security requirement *)
+Definition serve_sec (d : bytes) (registered : list bytes) (rt : route) (specs : list spec) (head : bool)
+           (s : sec_cfg) (result : data) : outcome :=
+  match sec_alts s with
+  | [] => serve_validated d registered rt specs head [] result
+  | alts =>
+    match run_alts s alts None false [] with
+    | (true, _, m) => serve_validated d registered rt specs head m result
+    | (false, c, m) => serve_respond d registered rt specs head None m (DError c)
+    end
+  end.
+(* the requirement of the one-scheme cases above *)
+Definition sec_of_auth (a : auth_cfg) : sec_cfg :=
+  match a with
+  | NoAuth => mksec [] NoCreds 0 []
+  | Basic realm attempt code => mksec realm attempt code [[SBasic]]
+  end.
+
+(* ---- several requests answered one after the other by ONE Context (one API, one router): nothing is
+   carried from one answer to the next; the history of answers is the list of the single answers ---- *)
+Record hreq := mkhreq {
+  hq_route : route;             (* the operation matched by the request: produces, declared codes *)
+  hq_specs : list spec;         (* Accept *)
+  hq_head : bool;
+  hq_sec : sec_cfg;             (* the operation's security requirement and what the request presents *)
+  hq_result : data              (* what the handler returns *)
+}.
+Definition serve_req (d : bytes) (registered : list bytes) (q : hreq) : outcome :=
+  serve_sec d registered (hq_route q) (hq_specs q) (hq_head q) (hq_sec q) (hq_result q).
+Definition serve_history (d : bytes) (registered : list bytes) (qs : list hreq) : list outcome :=
+  map (serve_req d registered) qs.
